@@ -4,3 +4,47 @@
    tube muxer). Same case format and checker as C05. *)
 From Hop Require Export Base Authz AuthzCorr.
 Definition c07_ok := authz_ok.
+
+(* ---- concurrent exec requests of one grant session (Model/GrantRace.v) ----
+   A case: the grants of the session (serial = position), the requests (command, shell flag), the
+   scripted clock, and what N goroutines calling the real checkCmd at the same time produced: per
+   request the PrincipalID of the grant it was started under (None = refused), the grants left in
+   sess.authorizedActions, whether any goroutine panicked.  The checker accepts iff SOME order of
+   the requests, run through the locked interleaving model one request after the other (the
+   schedules Proofs/GrantRaceProofs.v shows to be the only ones: linearizability), ends in exactly
+   this outcome. *)
+From Hop Require Export GrantRace.
+
+Fixpoint ins_all (x : nat) (l : list nat) : list (list nat) :=
+  match l with
+  | [] => [[x]]
+  | y :: r => (x :: l) :: map (cons y) (ins_all x r)
+  end.
+Fixpoint perms (l : list nat) : list (list nat) :=
+  match l with [] => [[]] | x :: r => flat_map (ins_all x) (perms r) end.
+
+Fixpoint mk_grants (n : N) (vs : list gview) : list grant :=
+  match vs with
+  | [] => []
+  | (t, s, e, c, p) :: r => mkGrant n t s e c p :: mk_grants (n + 1) r
+  end.
+
+Definition oN_eqb (a b : option N) : bool :=
+  match a, b with Some x, Some y => x =? y | None, None => true | _, _ => false end.
+Definition race_results (x : st) : list (option N) :=
+  map (fun p => match p with PDone (Some g) => Some (g_prin g) | _ => None end) (pcs x).
+
+Definition race_case := (list gview * list (bytes * bool) * Z * list (option N) * list gview * bool)%type.
+Definition c07_race_ok (c : race_case) : bool :=
+  match c with
+  | (gvs, rq, now, results, rem, pan) =>
+      let gs := mk_grants 0 gvs in
+      let qs := map (fun q => mkReq (fst q) (snd q) now) rq in
+      negb pan &&
+      existsb (fun order =>
+                 let x := run_order true gs qs order in
+                 all_done x && negb (panicked x) &&
+                 beq_list oN_eqb (race_results x) results &&
+                 gviews_eqb (map gv (remaining x)) rem)
+              (perms (seq 0 (List.length qs)))
+  end.
